@@ -14,4 +14,22 @@ MCInit == /\ Init
           /\ rid[1] = RootRid
           /\ ~SelfLoops => \A u \in Nodes : edge[u][u] = "none"
           /\ ~RemoteToo => ~remoteRoot
+\* larger structured graphs (K = 4..6): chains, k-cycles through the root,
+\* cycles that do not pass the root, diamonds; one kind pattern per graph
+Shapes == {"chain", "cycle", "lasso", "diamond"}
+ChainE == {<<i, i + 1>> : i \in 1..(K - 1)}
+ShapeEdges(sh) ==
+    CASE sh = "chain" -> ChainE
+      [] sh = "cycle" -> ChainE \cup {<<K, 1>>}
+      [] sh = "lasso" -> ChainE \cup {<<K, 2>>}
+      [] sh = "diamond" -> {<<1, 2>>, <<1, 3>>, <<2, 4>>, <<3, 4>>}
+                           \cup {<<i, i + 1>> : i \in 4..(K - 1)}
+KindOf(pat, u) == CASE pat = "file" -> "file" [] pat = "mapped" -> "filemapped"
+                    [] pat = "alternating" -> IF u % 2 = 1 THEN "file" ELSE "filemapped"
+ShapeInit ==
+    /\ rid \in [Nodes -> Rids] /\ rid[1] = RootRid
+    /\ remoteRoot = FALSE
+    /\ \E sh \in Shapes, pat \in {"file", "mapped", "alternating"} :
+          edge = [u \in Nodes |-> [v \in Nodes |->
+                     IF <<u, v>> \in ShapeEdges(sh) THEN KindOf(pat, u) ELSE "none"]]
 =============================================================================
